@@ -112,10 +112,18 @@ func validDoc(r *rng, f string) []byte {
 	case "ssa":
 		return renderSSA(r, genSSADoc(r), false)
 	case "stl":
+		var d []byte
 		if genSTLDoc != nil {
-			return genSTLDoc(r)
+			d = genSTLDoc(r)
+		} else {
+			d, _ = genSourceDoc(r, "stl")
 		}
-		d, _ := genSourceDoc(r, "stl")
+		if len(d) >= 11 && r.chance(1, 5) {
+			// a disk format code of the right shape with another number (frame rate 0, signed, hexadecimal …): the reader
+			// refuses it or reads on, it never divides by what it parsed
+			d = append([]byte(nil), d...)
+			copy(d[3:11], []string{"STL00.01", "STL+0.01", "STL-1.01", "STL24.01", "STL50.01", "STL 0.01", "STL0x.01", "STL99.01", "STL00.00", "stl25.01"}[r.intn(10)])
+		}
 		return d
 	case "ttml":
 		return genTTMLDoc(r)
